@@ -77,7 +77,7 @@ EXT_FUNCS = {
     "builtins.enumerate": "enumerate", "builtins.zip": "zip", "builtins.map": "map",
     "builtins.dict": "dictctor", "builtins.dict.fromkeys": "dictfromkeys",
     "itertools.chain": "chain", "itertools.islice": "box", "itertools.chain.from_iterable": "chainfrom",
-    "attd.AttributeDict": "attrdict",
+    "attd.AttributeDict": "attrdict", "attd.AttributeDict.copy": "shallowcopy", "attd.AttributeDict.__copy__": "shallowcopy",
     # explicit base-class storage primitives  (dict.update(x, ...), dict.copy(x))
     "builtins.dict.update": "dict_update", "builtins.dict.copy": "dict_copy",
     "builtins.dict.__setitem__": "dict_setitem", "builtins.dict.pop": "dict_pop",
